@@ -32,27 +32,33 @@ Lemma times_le_other e l m :
   times_le l m -> times_le (e :: l) m.
 Proof. intros He Hl acc. destruct e; try contradiction; cbn [last_time]; apply Hl. Qed.
 
-Lemma await_times vr w : forall evs now deadline o n' e' l,
-  now < deadline ->
-  await vr w now deadline evs = (o, n', e', l) ->
-  now <= n' <= deadline /\ times_le l n'.
+Lemma await_times c w : 0 <= proc c -> v c = current -> forall evs now deadline o n' e' l,
+  await c w now deadline evs = (o, n', e', l) ->
+  now <= n' <= Z.max now (deadline + proc c) /\ times_le l n'.
 Proof.
-  induction evs as [|[t a d] evs IH]; intros now deadline o n' e' l Hnow H; cbn [await] in H;
-    unfold sock_timeout in H; destruct (Z.ltb_spec 0 (deadline - now)) as [_|Hc]; try lia;
-    replace (now + (deadline - now)) with deadline in H by lia.
+  intros Hp Hv.
+  induction evs as [|[t a d] evs IH]; intros now deadline o n' e' l H; cbn [await] in H;
+    rewrite Hv in H; cbn [late_recv current negb andb] in H;
+    destruct (Z.leb_spec deadline now) as [Hover|Hin].
   - injection H as <- <- <- <-. split; [lia|]. apply times_le_timeout; [lia|apply times_le_nil].
-  - destruct (Z.ltb_spec t deadline) as [Hlt|Hge].
+  - unfold sock_timeout in H; destruct (Z.ltb_spec 0 (deadline - now)) as [_|Hc]; try lia;
+      replace (now + (deadline - now)) with deadline in H by lia.
+    injection H as <- <- <- <-. split; [lia|]. apply times_le_timeout; [lia|apply times_le_nil].
+  - injection H as <- <- <- <-. split; [lia|]. apply times_le_timeout; [lia|apply times_le_nil].
+  - unfold sock_timeout in H; destruct (Z.ltb_spec 0 (deadline - now)) as [_|Hc]; try lia;
+      replace (now + (deadline - now)) with deadline in H by lia.
+    destruct (Z.ltb_spec t deadline) as [Hlt|Hge].
     + destruct (negb (a =? client)%N).
-      * destruct (await vr w (Z.max now t) deadline evs) as [[[o2 n2] e2] l2] eqn:E2.
+      * destruct (await c w (Z.max now t + proc c) deadline evs) as [[[o2 n2] e2] l2] eqn:E2.
         injection H as <- <- <- <-.
-        destruct (IH (Z.max now t) deadline _ _ _ _ ltac:(lia) E2) as [I1 I2].
+        destruct (IH (Z.max now t + proc c) deadline _ _ _ _ E2) as [I1 I2].
         split; [lia|]. apply times_le_recv; [lia|]. apply times_le_send; [lia|exact I2].
-      * destruct (classify vr d).
+      * destruct (classify current d).
         -- destruct (n =? w)%N.
            ++ injection H as <- <- <- <-. split; [lia|]. apply times_le_recv; [lia|apply times_le_nil].
-           ++ destruct (await vr w (Z.max now t) deadline evs) as [[[o2 n2] e2] l2] eqn:E2.
+           ++ destruct (await c w (Z.max now t + proc c) deadline evs) as [[[o2 n2] e2] l2] eqn:E2.
               injection H as <- <- <- <-.
-              destruct (IH (Z.max now t) deadline _ _ _ _ ltac:(lia) E2) as [I1 I2].
+              destruct (IH (Z.max now t + proc c) deadline _ _ _ _ E2) as [I1 I2].
               split; [lia|]. apply times_le_recv; [lia|exact I2].
         -- injection H as <- <- <- <-. split; [lia|]. apply times_le_recv; [lia|apply times_le_nil].
         -- injection H as <- <- <- <-. split; [lia|]. apply times_le_recv; [lia|apply times_le_nil].
@@ -63,20 +69,22 @@ Qed.
 Section Times.
   Variable c : cfg.
   Hypothesis tm_pos : 0 < tmo c.
+  Hypothesis pr_nonneg : 0 <= proc c.
+  Hypothesis v_cur : v c = current.
 
   Lemma send_tries_times : forall k p w now evs o n' e' l,
     send_tries c (S k) p w now evs = (o, n', e', l) ->
-    now <= n' <= now + Z.of_nat (S k) * tmo c /\ times_le l n'.
+    now <= n' <= now + Z.of_nat (S k) * (tmo c + proc c) /\ times_le l n'.
   Proof.
     induction k as [|k IH]; intros p w now evs o n' e' l H; rewrite send_tries_S in H;
-      destruct (await (v c) w now (now + tmo c) evs) as [[[o1 n1] e1] l1] eqn:E1;
-      destruct (await_times (v c) w evs now (now + tmo c) o1 n1 e1 l1 ltac:(lia) E1) as [A1 A2].
+      destruct (await c w now (now + tmo c) evs) as [[[o1 n1] e1] l1] eqn:E1;
+      destruct (await_times c w pr_nonneg v_cur evs now (now + tmo c) o1 n1 e1 l1 E1) as [A1 A2].
     - assert (G : forall oo, (oo, n1, e1, TSend now client p :: l1) = (o, n', e', l) ->
-                now <= n' <= now + Z.of_nat 1 * tmo c /\ times_le l n').
+                now <= n' <= now + Z.of_nat 1 * (tmo c + proc c) /\ times_le l n').
       { intros oo HH. injection HH as <- <- <- <-. split; [lia|]. apply times_le_send; [lia|exact A2]. }
       destruct o1; try (eapply G; exact H). destruct (retry_fallthrough (v c)); eapply G; exact H.
     - assert (G : forall oo, (oo, n1, e1, TSend now client p :: l1) = (o, n', e', l) ->
-                now <= n' <= now + Z.of_nat (S (S k)) * tmo c /\ times_le l n').
+                now <= n' <= now + Z.of_nat (S (S k)) * (tmo c + proc c) /\ times_le l n').
       { intros oo HH. injection HH as <- <- <- <-. split; [nia|]. apply times_le_send; [lia|exact A2]. }
       destruct o1; try (eapply G; exact H).
       destruct (send_tries c (S k) p w n1 e1) as [[[o2 n2] e2] l2] eqn:E2.
@@ -89,7 +97,7 @@ Section Times.
   Lemma send_blocks_times : forall blocks blk now evs r n' e' l,
     send_blocks c blk blocks now evs = (r, n', e', l) ->
     now <= n' <= now + Z.of_nat (length (fst (number_blocks (wrap c) blk blocks))) *
-                        (Z.of_nat (S (retries c)) * tmo c)
+                        (Z.of_nat (S (retries c)) * (tmo c + proc c))
     /\ times_le l n'.
   Proof.
     induction blocks as [|b rest IH]; intros blk now evs r n' e' l H; cbn [send_blocks] in H.
@@ -100,7 +108,7 @@ Section Times.
       destruct (send_tries_times _ _ _ _ _ _ _ _ _ E1) as [A1 A2].
       destruct (number_blocks (wrap c) n rest) as [lr orr] eqn:Enb. cbn [fst length].
       assert (G : (inl o : outcome + ending, n1, e1, l1) = (r, n', e', l) ->
-                now <= n' <= now + Z.of_nat (S (length lr)) * (Z.of_nat (S (retries c)) * tmo c) /\ times_le l n').
+                now <= n' <= now + Z.of_nat (S (length lr)) * (Z.of_nat (S (retries c)) * (tmo c + proc c)) /\ times_le l n').
       { intros HH. injection HH as <- <- <- <-. split; [nia|exact A2]. }
       destruct o; try (apply G; exact H).
       destruct (send_blocks c n rest n1 e1) as [[[r2 n2] e2] l2] eqn:E2.
@@ -112,14 +120,16 @@ End Times.
 
 Theorem transfer_within_time c : valid c -> within_time c (run_transfer_case c) = true.
 Proof.
-  intros Hv. pose proof Hv as (Hcur & Hnv & Hna & Hb & Ht).
+  intros Hv. pose proof Hv as (Hcur & Hnv & Hna & Hb & Ht & Hpr).
   destruct (negotiate_pos (t_limits c) (t_netascii c) (t_kind c) (t_options c) Hb Ht) as [_ Htm].
   assert (tm_pos : 0 < tmo (t_cfg c)).
   { unfold t_cfg, t_neg; cbn [tmo]. rewrite Hnv. unfold TICKS. lia. }
+  assert (pr_nonneg : 0 <= proc (t_cfg c)) by exact Hpr.
+  assert (v_cur : v (t_cfg c) = current) by exact Hcur.
   unfold within_time, time_bound, run_transfer_case. rewrite (t_blocks_spec c Hv).
   apply Z.leb_le. unfold expected.
   destruct (number_blocks (t_wrap c) 0%N (spec_blocks c)) as [lb ob] eqn:Enb.
-  set (U := Z.of_nat (S (t_retries c)) * tmo (t_cfg c)).
+  set (U := Z.of_nat (S (t_retries c)) * (tmo (t_cfg c) + t_proc c)).
   assert (HU : 0 <= U) by (subst U; nia).
   assert (Fin : forall r now, times_le (finish r now ++ [TCloseFile; TCloseSock]) now).
   { intros r now. apply times_le_app.
@@ -129,19 +139,19 @@ Proof.
   unfold transfer, transfer_r.
   destruct (n_oack (t_neg c)) as [|oa1 oar] eqn:Eoa.
   - destruct (send_blocks (t_cfg c) 0%N (spec_blocks c) 0 (t_events c)) as [[[r n] e] l] eqn:E. cbn [snd].
-    destruct (send_blocks_times (t_cfg c) tm_pos _ _ _ _ _ _ _ _ E) as [A1 A2].
-    cbn [wrap t_cfg] in A1. rewrite Enb in A1. cbn [fst retries t_cfg] in A1. fold U in A1.
+    destruct (send_blocks_times (t_cfg c) tm_pos pr_nonneg v_cur _ _ _ _ _ _ _ _ E) as [A1 A2].
+    cbn [wrap t_cfg] in A1. rewrite Enb in A1. cbn [fst retries proc t_cfg] in A1. fold U in A1.
     cbn [fst]. pose proof (times_le_app l _ n A2 (Fin r n) 0). lia.
   - destruct (send_tries (t_cfg c) (S (retries (t_cfg c))) (POack (oa1 :: oar)) 0%N 0 (t_events c))
       as [[[o n1] e1] l1] eqn:E1. cbn [snd].
-    destruct (send_tries_times (t_cfg c) tm_pos _ _ _ _ _ _ _ _ _ E1) as [A1 A2].
-    cbn [retries t_cfg] in A1. fold U in A1. cbn [fst length].
+    destruct (send_tries_times (t_cfg c) tm_pos pr_nonneg v_cur _ _ _ _ _ _ _ _ _ E1) as [A1 A2].
+    cbn [retries proc t_cfg] in A1. fold U in A1. cbn [fst length].
     assert (G : forall oo, times_le (l1 ++ finish (inl oo) n1 ++ [TCloseFile; TCloseSock]) n1).
     { intros oo. apply times_le_app; [exact A2|apply Fin]. }
     destruct o; cbn [snd]; try (match goal with |- context [finish (inl ?x)] => pose proof (G x 0) end; nia).
     destruct (send_blocks (t_cfg c) 0%N (spec_blocks c) n1 e1) as [[[r n] e] l] eqn:E. cbn [snd].
-    destruct (send_blocks_times (t_cfg c) tm_pos _ _ _ _ _ _ _ _ E) as [B1 B2].
-    cbn [wrap t_cfg] in B1. rewrite Enb in B1. cbn [fst retries t_cfg] in B1. fold U in B1.
+    destruct (send_blocks_times (t_cfg c) tm_pos pr_nonneg v_cur _ _ _ _ _ _ _ _ E) as [B1 B2].
+    cbn [wrap t_cfg] in B1. rewrite Enb in B1. cbn [fst retries proc t_cfg] in B1. fold U in B1.
     assert (T : times_le ((l1 ++ l) ++ finish r n ++ [TCloseFile; TCloseSock]) n).
     { apply times_le_app; [|apply Fin]. apply times_le_app; [|exact B2].
       eapply times_le_weaken; [exact A2|lia]. }
